@@ -13,7 +13,9 @@ import (
 
 var vfSplitAlphabet = [...]rune{'a', 0x05D0, '1', ' ', '(', ')', 0x4E2D, 0x0301}
 
-var vfFaces = [2]*font.Face{{Font: &font.Font{}}, {Font: &font.Font{}}}
+// two distinct faces of ONE font (e.g. two variation instances): they are not interchangeable
+var vfSharedFont = &font.Font{}
+var vfFaces = [2]*font.Face{{Font: vfSharedFont}, {Font: vfSharedFont}}
 
 // vfFontmap: an ARBITRARY font map: the face is an uninterpreted function of the rune and of the
 // script hint last given through SetScript (FontmapScript), over two faces.
@@ -136,7 +138,7 @@ func VfH_C07_split() {
 
 // H-C13-split: a Segmenter used before returns what a fresh one returns.
 func VfH_C13_split() {
-	maxLen, alpha := 2, 4
+	maxLen, alpha := 2, 3
 	if vfThorough() {
 		maxLen, alpha = 2, 8
 	}
